@@ -24,6 +24,8 @@ W = "_core:WebSocket"
 def _lock_spans(o, lockval):
     """indices (enter, exit) of the with-blocks on `lockval` in the trace"""
     spans, stack = [], []
+    if lockval is None or not hasattr(lockval, "key"):
+        return spans   # no lock object at all: no write can be inside a critical section
     for i, e in enumerate(o.effects):
         if e.name == "with.enter" and e.args and e.args[0].key() == lockval.key():
             stack.append(i)
